@@ -1,7 +1,7 @@
 (* Property C10 — path addressing is exact.  Only statements and [exact]; proofs live in Proofs/KeyPath*.v, Proofs/Hier*.v. *)
 From PG Require Import Common.Tactics Model.KeyPath Model.Hier
   Proofs.KeyPathParse Proofs.KeyPathArith Proofs.KeyPathOrder
-  Proofs.KeyPathSetBase Proofs.KeyPathSetIter Proofs.KeyPathSetThm Proofs.KeyPathSetEq Proofs.HierTraverse Proofs.HierQuery Proofs.HierFlatten.
+  Proofs.KeyPathSetBase Proofs.KeyPathSetIter Proofs.KeyPathSetThm Proofs.KeyPathSetEq Proofs.KeyPathSetInter Proofs.HierTraverse Proofs.HierQuery Proofs.HierFlatten.
 
 (* 1. A key path of admissible keys (integers; non-empty strings with balanced brackets) prints to a string
       that parses back to the same keys.  Any number of keys, any lengths. *)
@@ -113,6 +113,18 @@ Theorem C10_set_subtree : forall q p t, twf q t -> cleanp q p -> p <> [] ->
      forall s, In s (paths ck) <-> cleanp q s /\ mem q (p ++ s) t = true).
 Proof. exact subtree_spec. Qed.
 Print Assumptions C10_set_subtree.
+
+(*    add(path, include_intermediate=True) on a prefix-closed set (in particular one built from nothing with this flag,
+      as tree_view does) adds the path and every prefix of it, returns whether the path was new, and the result is
+      again prefix-closed. *)
+Theorem C10_set_add_intermediate : forall q p t, twf q t -> cleanp q p -> prefix_closed q t ->
+  exists t', add_go q true p (TDict t) = Some (TDict t', negb (mem q p t)) /\ twf q t' /\ prefix_closed q t' /\
+    forall p', cleanp q p' -> mem q p' t' = is_prefix p' p || mem q p' t.
+Proof.
+  intros q p t Hw Hc Hpc. destruct (add_intermediate_spec q p t Hw Hc Hpc) as (t' & A & B & _ & D).
+  exists t'. split; [exact A |]. split; [exact B |]. split; [eapply closed_from_law; eauto | exact D].
+Qed.
+Print Assumptions C10_set_add_intermediate.
 
 (* 6. Traversal.  [nodes v root] is the pre-order list of (path, node); at_path v s x says x is the node of v at the
       canonical path s (dict keys, list positions from 0); wfv = dict keys are distinct (as Python builds dicts).
